@@ -324,7 +324,50 @@ fn promotion(t: &mut Tape) -> Pos1 {
     p
 }
 
+/// as many move-list entries as the rules allow: pawns on the seventh rank (four entries
+/// each since every promotion piece has its own entry) plus mobile pieces
+fn promotion_wall(t: &mut Tape) -> Pos1 {
+    let mut p = Pos1::empty();
+    p.stm = WHITE;
+    let pawns = t.range(5, 8);
+    let skip = t.choose(8) as u8;
+    let mut placed = 0;
+    for i in 0..8u8 {
+        let f = (i + skip) & 7;
+        if placed < pawns {
+            p.sq[sq(f, 6) as usize] = pc(WHITE, P);
+            placed += 1;
+        }
+    }
+    // the eighth rank: mostly empty, a few capturable black pieces
+    let n = t.range(0, 3);
+    for _ in 0..n {
+        let f = t.choose(8) as u8;
+        let k = *t.pick(&[N, B, R, Q]);
+        place(&mut p, sq(f, 7), BLACK, k);
+    }
+    // the black king away from the wall, the white king somewhere below
+    if let Some(s) = rand_empty(t, &p, 2, 4) {
+        p.sq[s as usize] = pc(BLACK, K);
+    }
+    if let Some(s) = rand_empty(t, &p, 0, 1) {
+        p.sq[s as usize] = pc(WHITE, K);
+    }
+    // remaining white pieces up to sixteen, all mobile types
+    let n = (15 - pawns).min(t.range(4, 8));
+    for _ in 0..n {
+        let k = *t.pick(&[Q, N, R, B, Q, N]);
+        if let Some(s) = rand_empty(t, &p, 0, 5) {
+            place(&mut p, s, WHITE, k);
+        }
+    }
+    p
+}
+
 fn extremal(t: &mut Tape) -> Pos1 {
+    if t.choose(3) == 2 {
+        return promotion_wall(t);
+    }
     // up to 16 mobile white pieces plus two en-passant capturers
     let mut p = Pos1::empty();
     p.stm = WHITE;
